@@ -57,7 +57,7 @@ let cfg_of (fields : string list) : cfg * (string -> string option) option =
         Some (fun s -> match Hashtbl.find_opt tbl s with Some v -> v | None -> remiss := true; Some "<<ENC-TABLE-MISS>>")
       end in
     ({ repl = hex_decode repl; nums = b 0; bools = b 1; ips = b 2; nss = b 3;
-       eager = List.map hex_decode (split_char ',' eager); re = re_f }, enc_f)
+       eager = List.map (fun h -> if h = "=" then "" else hex_decode h) (split_char ',' eager); re = re_f }, enc_f)
   | _ -> failwith "bad CFG"
 
 let () =
